@@ -915,6 +915,56 @@ Proof.
   now rewrite Hw.
 Qed.
 
+
+(* ================= C07 for whole runs: a second run over the same names changes nothing ================= *)
+Section RunTwice.
+  Variable parse : str -> str -> option (list area).
+
+  (* a step is settled when repeating it on its own result gives that result again *)
+  Definition settles (n : str) (c : option str) : Prop :=
+    exists c', file_step parse n c = Ok c' /\ file_step parse n c' = Ok c'.
+
+  Theorem handle_list_twice names : NoDup names -> forall fs,
+    (forall n, In n names -> settles n (fs_get fs n)) ->
+    exists fs1 fs2, handle_list parse fs names = Ok fs1 /\ handle_list parse fs1 names = Ok fs2 /\
+                    forall q, fs_get fs2 q = fs_get fs1 q.
+  Proof.
+    intros Hd fs Hs.
+    assert (Hok : forall n, In n names -> is_ok (file_step parse n (fs_get fs n)) = true).
+    { intros n Hin. destruct (Hs n Hin) as (c' & E & _). now rewrite E. }
+    destruct (handle_list_mapwise parse names Hd fs Hok) as (fs1 & Hr1 & Hq1).
+    assert (Hstep : forall n, In n names -> file_step parse n (fs_get fs1 n) = Ok (fs_get fs1 n)).
+    { intros n Hin. destruct (Hs n Hin) as (c' & E1 & E2). specialize (Hq1 n).
+      destruct (in_dec str_dec n names) as [_|Hn]; [|contradiction]. rewrite E1 in Hq1. inversion Hq1; subst c'. exact E2. }
+    assert (Hok1 : forall n, In n names -> is_ok (file_step parse n (fs_get fs1 n)) = true).
+    { intros n Hin. now rewrite (Hstep n Hin). }
+    destruct (handle_list_mapwise parse names Hd fs1 Hok1) as (fs2 & Hr2 & Hq2).
+    exists fs1, fs2. repeat split; try assumption. intros q. specialize (Hq2 q).
+    destruct (in_dec str_dec q names) as [Hin|Hn]; [|assumption].
+    rewrite (Hstep q Hin) in Hq2. now inversion Hq2.
+  Qed.
+
+  (* every kind of file settles: not a .go name, missing, unparsable, ... *)
+  Lemma settles_non_go n c : has_suffix n GO_SUFFIX = false -> settles n c.
+  Proof. intros H. exists c. unfold file_step. rewrite H. auto. Qed.
+  Lemma settles_missing n : settles n None.
+  Proof. exists None. unfold file_step. destruct (has_suffix n GO_SUFFIX); auto. Qed.
+  Lemma settles_unparsable n b : parse n b = None -> settles n (Some b).
+  Proof. intros H. exists (Some b). unfold file_step. destruct (has_suffix n GO_SUFFIX); cbn [negb]; [rewrite H|]; auto. Qed.
+  (* ... and a file of C06's domain, when the oracle returns what go/parser is expected to return
+     for the file and for its injected version *)
+  Lemma settles_domain n f a a' : wf_file f = true -> has_suffix n GO_SUFFIX = true ->
+    areas_of f = Ok a -> parse n (render f) = Some a ->
+    areas_of (inject_file f) = Ok a' -> parse n (render (inject_file f)) = Some a' ->
+    settles n (Some (render f)).
+  Proof.
+    intros Hwf Hs Ha Hp Ha' Hp'. exists (Some (render (inject_file f))). split.
+    - now apply (file_step_domain parse n f a).
+    - pose proof (file_step_domain parse n (inject_file f) a' (wf_file_inject f Hwf) Ha' Hp' Hs) as H.
+      now rewrite (inject_file_idempotent f Hwf) in H.
+  Qed.
+End RunTwice.
+
 (* ================= witnesses of the recorded findings (byte level; the model is faithful there) ================= *)
 
 (* an EMPTY tag literal is never rewritten: rInject needs at least one byte between the back quotes *)
